@@ -20,7 +20,7 @@ use super::inst::*;
 use crate::engine::{CheckDef, Ctx, Verdict};
 use crate::factory::{MkErr, make_block};
 use crate::prng::Rng;
-use crate::scn::Scn;
+use crate::scn::{Op, Scn};
 use crate::simcipher::{env_clear_trace, env_events, env_trace};
 use crate::{invalid, violation};
 
@@ -60,6 +60,10 @@ fn r#gen(rng: &mut Rng, _thorough: bool) -> Scn {
             // the buffered decryptor is driven with byte-sized pieces, the block-level one with blocks
             let fam_ops = if buf { FAM_BUF } else { FAM_BLOCK };
             s.ops.push(gen_data_op(rng, fam_ops, &s.mode, s.bs, s.pol[1].max_width() as u64).who(1));
+            if buf && rng.chance(1, 3) {
+                // the decrypting party hands its state to a clone in mid-stream
+                s.ops.push(Op::new("clone").who(1));
+            }
         }
     } else {
         let mode = *rng.pick(&crate::factory::STREAM_MODES);
